@@ -137,8 +137,20 @@ func runSolverCtx(parent context.Context, s solverSpec, query string, timeoutS i
 
 func (x *Exec) queryText(o *Oblig, prelude string) string {
 	var sb strings.Builder
-	sb.WriteString(prelude)
-	sb.WriteString(x.stringDecls())
+	var body strings.Builder
+	for _, l := range o.Ctx {
+		body.WriteString(l)
+		body.WriteString("\n")
+	}
+	body.WriteString(o.Goal)
+	sd := x.stringDecls()
+	body.WriteString(sd)
+	if os.Getenv("VCGO_NOPRUNE") != "" {
+		sb.WriteString(prelude)
+	} else {
+		sb.WriteString(prunedPrelude(prelude, body.String()))
+	}
+	sb.WriteString(sd)
 	sb.WriteString("; ---- obligation " + o.Name + "  path " + o.Path + "\n")
 	for _, l := range o.Ctx {
 		sb.WriteString(l)
@@ -161,6 +173,7 @@ type solveCfg struct {
 
 func (x *Exec) solveAll(obls []*Oblig, cfg solveCfg) {
 	prelude := loadPrelude()
+	initPrelude(prelude)
 	solverSeed = cfg.seed
 	var wg sync.WaitGroup
 	ch := make(chan *Oblig)
@@ -305,4 +318,180 @@ func sanitizeFile(s string) string {
 		s = s[:120]
 	}
 	return s
+}
+
+// ---------------------------------------------------------------------------
+// Prelude pruning: only the declarations and axioms relevant to a query are sent to the solver.
+// Dropping an axiom can only lose proving power, never soundness.
+
+type preItem struct {
+	text    string
+	kind    string   // "decl" | "axiom" | "other"
+	defines []string // symbols declared / defined by this item
+	uses    map[string]bool
+	pats    map[string]bool // symbols in :pattern annotations (axioms)
+}
+
+var preItems []*preItem
+var preSyms map[string]bool
+var reSym = regexp.MustCompile(`[A-Za-z_][A-Za-z0-9_.]*`)
+var rePat = regexp.MustCompile(`:pattern\s*\(((?:[^()]|\([^()]*\)|\((?:[^()]|\([^()]*\))*\))*)\)`)
+
+func splitTop(src string) []string {
+	var out []string
+	depth, start := 0, -1
+	inComment := false
+	for i := 0; i < len(src); i++ {
+		c := src[i]
+		if inComment {
+			if c == '\n' {
+				inComment = false
+			}
+			continue
+		}
+		switch c {
+		case ';':
+			inComment = true
+		case '(':
+			if depth == 0 {
+				start = i
+			}
+			depth++
+		case ')':
+			depth--
+			if depth == 0 && start >= 0 {
+				out = append(out, src[start:i+1])
+				start = -1
+			}
+		}
+	}
+	return out
+}
+
+func stripComments(s string) string {
+	var sb strings.Builder
+	for _, ln := range strings.Split(s, "\n") {
+		if i := strings.Index(ln, ";"); i >= 0 {
+			ln = ln[:i]
+		}
+		sb.WriteString(ln)
+		sb.WriteString("\n")
+	}
+	return sb.String()
+}
+
+func initPrelude(pre string) {
+	if preItems != nil {
+		return
+	}
+	preSyms = map[string]bool{}
+	reDecl := regexp.MustCompile(`^\((declare-fun|define-fun|declare-const|declare-sort)\s+([A-Za-z_][A-Za-z0-9_.]*)`)
+	reCtor := regexp.MustCompile(`\(([A-Za-z_][A-Za-z0-9_]*)`)
+	for _, t := range splitTop(pre) {
+		t = strings.TrimSpace(stripComments(t))
+		it := &preItem{text: t, kind: "other", uses: map[string]bool{}, pats: map[string]bool{}}
+		if m := reDecl.FindStringSubmatch(t); m != nil {
+			it.kind = "decl"
+			it.defines = []string{m[2]}
+		} else if strings.HasPrefix(t, "(declare-datatypes") {
+			it.kind = "decl"
+			for _, m := range reCtor.FindAllStringSubmatch(t, -1) {
+				it.defines = append(it.defines, m[1])
+			}
+			it.defines = append(it.defines, "__always")
+		} else if strings.HasPrefix(t, "(assert") {
+			it.kind = "axiom"
+		}
+		for _, d := range it.defines {
+			preSyms[d] = true
+		}
+		preItems = append(preItems, it)
+	}
+	for _, it := range preItems {
+		for _, sy := range reSym.FindAllString(it.text, -1) {
+			if preSyms[sy] {
+				it.uses[sy] = true
+			}
+		}
+		if it.kind == "axiom" {
+			for _, m := range rePat.FindAllStringSubmatch(it.text, -1) {
+				for _, sy := range reSym.FindAllString(m[1], -1) {
+					if preSyms[sy] {
+						it.pats[sy] = true
+					}
+				}
+			}
+		}
+	}
+}
+
+var alwaysSyms = []string{"Val", "Heap", "Str", "F64", "mkHeap", "VNil", "select", "store"}
+
+// prunedPrelude returns the part of the prelude relevant to body.
+func prunedPrelude(pre, body string) string {
+	initPrelude(pre)
+	used := map[string]bool{}
+	for _, sy := range reSym.FindAllString(body, -1) {
+		if preSyms[sy] {
+			used[sy] = true
+		}
+	}
+	// datatype constructors / selectors always available
+	include := make([]bool, len(preItems))
+	for changed := true; changed; {
+		changed = false
+		for i, it := range preItems {
+			if include[i] {
+				continue
+			}
+			take := false
+			switch it.kind {
+			case "decl":
+				for _, d := range it.defines {
+					if used[d] || d == "__always" {
+						take = true
+					}
+				}
+			case "axiom":
+				if len(it.pats) > 0 {
+					take = true
+					// every alternative pattern set is merged; require that at least the symbols of one
+					// full pattern are present: approximated by requiring any pattern symbol that is not a
+					// datatype constructor / selector to be used
+					any := false
+					for sy := range it.pats {
+						if used[sy] {
+							any = true
+						}
+					}
+					take = any
+				} else {
+					for sy := range it.uses {
+						if used[sy] {
+							take = true
+						}
+					}
+				}
+			default:
+				take = false
+			}
+			if take {
+				include[i] = true
+				changed = true
+				for sy := range it.uses {
+					if !used[sy] {
+						used[sy] = true
+					}
+				}
+			}
+		}
+	}
+	var sb strings.Builder
+	for i, it := range preItems {
+		if include[i] {
+			sb.WriteString(it.text)
+			sb.WriteString("\n")
+		}
+	}
+	return sb.String()
 }
